@@ -1247,7 +1247,7 @@ func RunC20(cfg Config) (*ShardResult, error) {
 				}
 				tries := 1
 				if vs[0].Class == "data-race" {
-					tries = 3
+					tries = 8 // measured on s20-i1 (write after a read by another task): one identical run in four reports it
 				}
 				cvs, _ := e.confirmN(replay, tries)
 				if len(cvs) == 0 && i > 0 {
@@ -1372,7 +1372,7 @@ func replayC20(cfg Config, rf ReplayFile) (*Violation, error) {
 	}
 	tries := 1
 	if rf.Violation.Class == "data-race" {
-		tries = 5 // see confirmN: the detector may lose a report in a given run
+		tries = 20 // see confirmN: the detector may lose a report in a given run (measured: up to three runs in four)
 	}
 	vs, inc := e.confirmN(sc, tries)
 	if len(vs) == 0 {
@@ -1398,7 +1398,7 @@ func minimiseC20(cfg Config, v Violation, budget Deadline) Violation {
 	var best *Violation
 	tries := 1
 	if v.Class == "data-race" {
-		tries = 2
+		tries = 4
 	}
 	same := func(s C20Scenario) bool {
 		vs, _ := e.confirmN(s, tries)
